@@ -290,7 +290,7 @@ impl<D: DependencyProvider> SolverCache<D> {
                 match self.requirement_to_sorted_candidates.get(&requirement) {
                     Some(candidates) => Ok(candidates),
                     None => {
-                        let sorted_candidates = futures::future::try_join_all(
+                        let sorted_candidates = try_join_all_eager(
                             self.provider()
                                 .version_sets_in_union(version_set_union_id)
                                 .map(|version_set_id| {
@@ -433,4 +433,42 @@ impl<D: DependencyProvider> SolverCache<D> {
             value.unwrap_or(false)
         }
     }
+}
+
+/// Drives all futures to completion like [`futures::future::try_join_all`], polling them in
+/// order and returning their results in order, but always stops at the first error.
+///
+/// `try_join_all` only short-circuits for up to 30 futures with a known upper size bound; above
+/// that (or for an iterator without an upper size hint, which `version_sets_in_union` may
+/// return) it buffers an error behind all earlier, still pending futures. For the solver an error
+/// is a cancellation value: it must be honoured as soon as it is observed.
+pub(crate) async fn try_join_all_eager<I, F, T, E>(futures: I) -> Result<Vec<T>, E>
+where
+    I: IntoIterator<Item = F>,
+    F: std::future::Future<Output = Result<T, E>>,
+{
+    let mut futures: Vec<_> = futures.into_iter().map(Box::pin).collect();
+    let mut results: Vec<Option<T>> = futures.iter().map(|_| None).collect();
+    std::future::poll_fn(move |cx| {
+        let mut pending = false;
+        for (future, result) in futures.iter_mut().zip(results.iter_mut()) {
+            if result.is_some() {
+                continue;
+            }
+            match future.as_mut().poll(cx) {
+                std::task::Poll::Ready(Ok(value)) => *result = Some(value),
+                std::task::Poll::Ready(Err(err)) => return std::task::Poll::Ready(Err(err)),
+                std::task::Poll::Pending => pending = true,
+            }
+        }
+        if pending {
+            std::task::Poll::Pending
+        } else {
+            std::task::Poll::Ready(Ok(results
+                .iter_mut()
+                .map(|result| result.take().expect("all futures completed"))
+                .collect()))
+        }
+    })
+    .await
 }
